@@ -2,6 +2,7 @@ package main
 
 func controlsC12() []Control {
 	return []Control{
+		{Name: "short-deck options replace the object that already holds the level's blinds", Expect: "R1", Mutate: replaceBoth("(*tableEngine).startGame", "\tif rule == CompetitionRule_ShortDeck {\n\t\topts = pokerface.NewShortDeckGameOptions()\n\t\topts.Deck = pokerface.NewShortDeckCards()\n\t} else if", "\tif rule == CompetitionRule_Omaha+\"x\" {\n\t} else if", "\tplayerSettings := make([]*pokerface.PlayerSetting, 0)\n", "\tif rule == CompetitionRule_ShortDeck {\n\t\topts = pokerface.NewShortDeckGameOptions()\n\t\topts.Deck = pokerface.NewShortDeckCards()\n\t}\n\tplayerSettings := make([]*pokerface.PlayerSetting, 0)\n")},
 		{Name: "failed hand start puts the pre-open table back", Expect: "R4", Mutate: replaceBoth("(*tableEngine).tableGameOpen", "\tte.table = newTable\n", "\tprevTable := te.table\n\tte.table = newTable\n", "\treturn te.startGame()\n", "\tif err := te.startGame(); err != nil {\n\t\tte.table = prevTable\n\t\treturn err\n\t}\n\treturn nil\n")},
 		{Name: "published hand blinds alias the mutable level", Expect: "R2", Mutate: replaceIn("(*tableEngine).startGame", "te.table.State.GameBlindState = &TableBlindState{\n\t\tLevel:  blind.Level,\n\t\tAnte:   blind.Ante,\n\t\tDealer: blind.Dealer,\n\t\tSB:     blind.SB,\n\t\tBB:     blind.BB,\n\t}", "te.table.State.GameBlindState = te.table.State.BlindState", 0)},
 		{Name: "hand options cross SB and BB", Expect: "R1", Mutate: replaceIn("(*tableEngine).startGame", "SB:     blind.SB,\n\t\tBB:     blind.BB,\n\t}\n\n\t// preparing players", "SB:     blind.BB,\n\t\tBB:     blind.SB,\n\t}\n\n\t// preparing players", 0)},
